@@ -657,9 +657,9 @@ func (in *inst) check() (kind, detail string) {
 				return "seek-returns-wrong-data-" + tag, fmt.Sprintf("SeekStates(root of height %d, prefix %x) = %s, that state had %s; latest %d, collected up to %d", r, p, kvString(res), kvString(want), h, in.gmax)
 			}
 		}
-		// Proofs: under the latest root, its predecessor, the oldest retained
+		// Proofs: under the root before the latest one, the oldest retained
 		// root and the newest collected one.
-		if r == h || r+1 == h || r == in.gmax || r+1 == in.gmax {
+		if r+1 == h || r == in.gmax || r+1 == in.gmax {
 			for _, kn := range keyOrder {
 				k := keys[kn]
 				st.proofs++
